@@ -42,8 +42,7 @@ Definition in_domain (file : list pentry) (txns : list txn) : bool :=
 
 (* bits: 1 model = implementation; 2 implementation satisfies the specification oracle;
    4 inside the exact domain; 8 the file has distinct (instant, base, eq);
-   16 the file contains a self pair of the report commodity (class of finding F12);
-   32 the file contains a line stamped >= Timestamp::MAX (class of the last-price finding) *)
+   16 (informational) the file contains a self pair of the report commodity *)
 Definition c07_case (lt : lookup_type) (rc : option (list N)) (before : option Z)
                     (file : list pentry) (txns : list txn) (impl : option impl_out) : N :=
   let agree :=
@@ -74,5 +73,4 @@ Definition c07_case (lt : lookup_type) (rc : option (list N)) (before : option Z
   ((if agree then 1 else 0) + (if spec_ok then 2 else 0)
    + (if in_domain file txns then 4 else 0)
    + (if distinct_keys_b file then 8 else 0)
-   + (if has_self_pair_b tgt file then 16 else 0)
-   + (if below_ts_max_b file then 0 else 32))%N.
+   + (if has_self_pair_b tgt file then 16 else 0))%N.
